@@ -23,7 +23,9 @@ Consume ==
            b4 == IF \E m \in d2 : e.check[m] \/ e.isleader[m] \/ e.tso[m] = "ok" THEN {"ExpiredOrResignedServesNothing"} ELSE {}
            b5 == IF e.ev = "GuardedWrite" /\ e.rec_before # e.m /\ (e.res = "ok" \/ e.stored[e.kind] # e.stored_before[e.kind])
                    THEN {"NonOwnerWriteRejected"} ELSE {}
-           b6 == IF e.ev = "Expire" /\ e.check_when_record_gone THEN {"LeaseNotTrustedLongerThanEtcd"} ELSE {}
+           b6 == (IF e.ev = "Expire" /\ e.check_when_record_gone THEN {"LeaseNotTrustedLongerThanEtcd"} ELSE {})
+                 \* a member that resigned stops trusting its lease at once, whether or not etcd could be told
+                 \cup (IF e.ev = "Resign" /\ e.check_right_after THEN {"ExpiredOrResignedServesNothing"} ELSE {})
            \* unless the record was removed under a holder that still trusts its lease, at most one member serves
            split == \E m \in Mem(e) : e.check[m] /\ e.rec # m
            b7 == IF ~split /\ Cardinality({m \in Mem(e) : e.check[m] /\ e.isleader[m]}) > 1 THEN {"AtMostOneServing"} ELSE {}
